@@ -724,6 +724,37 @@ example : creatorOf .Tag = some ⟨.Tag, [.super, .assign .m_position false]⟩ 
     runCSteps .Feature true ⟨false, false⟩ [.assign .m_data false] = some ⟨false, true⟩ := by
   decide +kernel
 
+/-- (generated shape of `File.__init__`) creating a file writes both of its stamps with the current time,
+opening an existing one (both attributes present) writes neither; either way the switch of the new `File`
+object is the `auto_update_timestamps` argument.  An unconditional `force_updated_at()` in `__init__`, or a
+switch not taken from the argument, breaks this theorem. -/
+theorem C19_file_init_effect :
+    fileInitEffect ⟨false, false⟩ = some ⟨true, true, true⟩ ∧
+    fileInitEffect ⟨true, true⟩ = some ⟨false, false, true⟩ := by
+  decide +kernel
+
+/-- the model's `open` and `reopen` are what `File.__init__` does: a new file starts with both stamps = the
+clock and the switch = the argument; re-opening changes no stored stamp of any entity and takes the switch
+from the argument -/
+theorem C19_open_refines_source (clock : Int) (auto : Bool) (s0 : State)
+    (h : State.open clock auto = .ok s0) (s : State) (a : Bool) :
+    (∃ eff v, fileInitEffect ⟨false, false⟩ = some eff ∧ timeToStr clock = .ok v ∧
+      s0.ents = [{ kind := .file, parent := 0, alive := true, created := stampText eff.writesCreated v,
+                   updated := stampText eff.writesUpdated v }] ∧
+      eff.switchFromArg = true ∧ s0.auto = auto) ∧
+    (∃ eff, fileInitEffect ⟨true, true⟩ = some eff ∧ eff.writesCreated = false ∧
+      eff.writesUpdated = false ∧ eff.switchFromArg = true ∧
+      (step s (.reopen a)).1 = { s with auto := a }) := by
+  obtain ⟨h1, h2⟩ := C19_file_init_effect
+  constructor
+  · cases hv : timeToStr clock with
+    | error e => simp [State.open, hv] at h
+    | ok v =>
+      simp only [State.open, hv] at h
+      cases h
+      exact ⟨_, v, h1, rfl, rfl, rfl, rfl⟩
+  · exact ⟨_, h2, rfl, rfl, rfl, rfl⟩
+
 /-! ## the switch -/
 
 def switchOk : Bool :=
